@@ -32,6 +32,9 @@ def _float_out(x):
     s = repr(float(x))
     if 'e' in s or 'E' in s:
         s = format(Decimal(s), 'f')
+        if '.' not in s:
+            # keep a fractional part, as repr() does: text following the wildcard may start with `.digits`
+            s += '.0'
     return s
 
 
